@@ -64,6 +64,15 @@ Definition right_open (e : sexpr) : bool :=
   | _ => false
   end.
 
+(* the lowest level met on the unparenthesised left spine of a postfix chain: in  - o.k++  the
+   operand of the prefix operator is printed  o.k++ , whose leftmost operator is the member access;
+   a prefix operator (level LPrefix) would take only  o  as its operand *)
+Fixpoint spine_low (e : sexpr) : nat :=
+  match e with
+  | XInc x | XDec x | XIndex x _ => if right_open x then lnum (level_of e) else Nat.min (lnum (level_of e)) (spine_low x)
+  | _ => lnum (level_of e)
+  end.
+
 (* ---- lexical items of the printer *)
 Inductive ptok :=
 | PInt (z : Z) | PFloat (m : Z) (k : nat) | PStr (s : bytes) (dq : bool)
@@ -115,9 +124,9 @@ Fixpoint toks (fuel : nat) (ps : paren_supply) (need : bool) (e : sexpr) {struct
       | XNil => ([PWord (bs "nil")], ps0)
       | XVar n => ([PWord n], ps0)
       | XNeg x =>
-        let '(t, p1) := sub ps0 (Nat.ltb (lnum (level_of x)) (lnum LPrefix)) x in (PSym [45] :: t, p1)
+        let '(t, p1) := sub ps0 (Nat.ltb (spine_low x) (lnum LPrefix)) x in (PSym [45] :: t, p1)
       | XNot x =>
-        let '(t, p1) := sub ps0 (Nat.ltb (lnum (level_of x)) (lnum LPrefix)) x in (PSym [33] :: t, p1)
+        let '(t, p1) := sub ps0 (Nat.ltb (spine_low x) (lnum LPrefix)) x in (PSym [33] :: t, p1)
       | XInc x =>
         let '(t, p1) := sub ps0 (right_open x) x in (t ++ [PSym [43; 43]], p1)
       | XDec x =>
